@@ -727,3 +727,12 @@ Example C06_truthful_value_example :
     map (fun e => (e_action e, e_loc e, leaf_value (e_lhs e), leaf_value (e_rhs e))) es =
       [(ADelete, [RIdx 0], PInt 1, PNone); (ASame, [RIdx 1], PInt 2, PInt 2); (AAdd, [RIdx 1], PNone, PInt 3)].
 Proof. exact truthful_value_witness. Qed.
+
+(* Every remaining statement of this file, so that none is left unaudited. *)
+Print Assumptions C06_printed_are_differences.
+Print Assumptions C06_complete_refuted.
+Print Assumptions C06_root_guard_nonnull.
+Print Assumptions C06_equiv_positional_is_data_eq.
+Print Assumptions C06_reflexive_refuted.
+Print Assumptions C06_accounting_refuted.
+Print Assumptions C06_entry_path_resolves_refuted.
